@@ -189,6 +189,186 @@ theorem cone_inertia_about_com (c o : V3 K) (ts : List (Triangle3 K))
   rcases coneInertia (⟨0, 0, 0⟩ : V3 K) o ts with ⟨⟨a00, a01, a02⟩, ⟨a10, a11, a12⟩, ⟨a20, a21, a22⟩⟩
   congr 1 <;> congr 1 <;> ring
 
+/-! ## concrete closed surfaces -/
+
+/-- boundary of the tetrahedron `(p₀,p₁,p₂,p₃)`, consistently wound (outwards when `vol4 p₀ p₁ p₂ p₃ < 0`…; either way) -/
+def tetraTris (p0 p1 p2 p3 : V3 K) : List (Triangle3 K) := [⟨p0, p1, p2⟩, ⟨p0, p3, p1⟩, ⟨p0, p2, p3⟩, ⟨p1, p3, p2⟩]
+
+/-- the 12 outward triangles of the box `[-hx,hx]×[-hy,hy]×[-hz,hz]` (each face split along one diagonal) -/
+def boxTris (h : V3 K) : List (Triangle3 K) :=
+  let v (sx sy sz : K) : V3 K := ⟨sx * h.x, sy * h.y, sz * h.z⟩
+  let quad (a b c d : V3 K) : List (Triangle3 K) := [⟨a, b, c⟩, ⟨a, c, d⟩]
+  quad (v (-1) (-1) (-1)) (v (-1) 1 (-1)) (v 1 1 (-1)) (v 1 (-1) (-1))     -- z = −hz
+  ++ quad (v (-1) (-1) 1) (v 1 (-1) 1) (v 1 1 1) (v (-1) 1 1)               -- z = +hz
+  ++ quad (v (-1) (-1) (-1)) (v 1 (-1) (-1)) (v 1 (-1) 1) (v (-1) (-1) 1)   -- y = −hy
+  ++ quad (v (-1) 1 (-1)) (v (-1) 1 1) (v 1 1 1) (v 1 1 (-1))               -- y = +hy
+  ++ quad (v (-1) (-1) (-1)) (v (-1) (-1) 1) (v (-1) 1 1) (v (-1) 1 (-1))   -- x = −hx
+  ++ quad (v 1 (-1) (-1)) (v 1 1 (-1)) (v 1 1 1) (v 1 (-1) 1)               -- x = +hx
+
+/-- closedness is preserved by reversing every winding, and by putting two closed surfaces together -/
+theorem closed3_flip_append (ts us : List (Triangle3 K)) (h1 : Closed3 ts) (h2 : Closed3 us) :
+    Closed3 (flipTris ts) ∧ Closed3 (ts ++ us) := by
+  constructor
+  · intro E hE
+    have h : (ts.map fun t => E t.b t.a + E t.c t.b + E t.a t.c).sum = 0 :=
+      (sum_edges3 (fun p q => E q p) ts).symm.trans (h1 (fun p q => E q p) (fun p q => hE q p))
+    rw [sum_edges3]
+    have e : ∀ l : List (Triangle3 K), ((@flipTris K l).map fun t => E t.a t.b + E t.b t.c + E t.c t.a).sum
+        = (l.map fun t => E t.b t.a + E t.c t.b + E t.a t.c).sum := by
+      intro l
+      induction l with
+      | nil => rfl
+      | cons t l ih =>
+        rw [flipTris_cons]
+        simp only [List.map_cons, List.sum_cons] at ih ⊢
+        rw [ih]; ring
+    rw [e]; exact h
+  · intro E hE
+    have a := h1 E hE
+    have b := h2 E hE
+    rw [sum_edges3] at a b ⊢
+    rw [List.map_append, List.sum_append, a, b, add_zero]
+
+/-- the boundary of a tetrahedron and the 12-triangle box are closed surfaces (non-vacuity of `Closed3`) -/
+theorem tetra_box_closed (p0 p1 p2 p3 h : V3 K) : Closed3 (tetraTris p0 p1 p2 p3) ∧ Closed3 (boxTris h) := by
+  constructor
+  · intro E hE
+    rw [sum_edges3]
+    simp only [tetraTris, List.map_cons, List.map_nil, List.sum_cons, List.sum_nil]
+    linarith [hE p0 p1, hE p0 p2, hE p0 p3, hE p1 p2, hE p1 p3, hE p2 p3]
+  · intro E hE
+    rw [sum_edges3]
+    simp only [boxTris, List.map_cons, List.map_nil, List.sum_cons, List.sum_nil, List.map_append, List.sum_append,
+      List.cons_append, List.nil_append]
+    set a : V3 K := ⟨-1 * h.x, -1 * h.y, -1 * h.z⟩
+    set b : V3 K := ⟨1 * h.x, -1 * h.y, -1 * h.z⟩
+    set c : V3 K := ⟨-1 * h.x, 1 * h.y, -1 * h.z⟩
+    set d : V3 K := ⟨1 * h.x, 1 * h.y, -1 * h.z⟩
+    set a' : V3 K := ⟨-1 * h.x, -1 * h.y, 1 * h.z⟩
+    set b' : V3 K := ⟨1 * h.x, -1 * h.y, 1 * h.z⟩
+    set c' : V3 K := ⟨-1 * h.x, 1 * h.y, 1 * h.z⟩
+    set d' : V3 K := ⟨1 * h.x, 1 * h.y, 1 * h.z⟩
+    linarith [hE a b, hE a c, hE a d, hE a a', hE a b', hE a c', hE b d, hE b b', hE b d', hE c d, hE c c', hE c d',
+      hE d d', hE a' b', hE a' c', hE a' d', hE b' d', hE c' d', hE b c, hE b' c']
+
+/-- **tessellation agreement, tetrahedron**: `from_trimesh` on the four faces of a non-degenerate tetrahedron — wound
+either way, whatever auxiliary apex — returns the centroid `(p₀+p₁+p₂+p₃)/4`, the mass `ρ·|vol|` and the tensor
+`ρ·|vol|·J(centroid; p₀,p₁,p₂,p₃)` of the solid tetrahedron (`tet_unit_inertia_eq`, `tet_second_moment_is_integral`). -/
+theorem from_trimesh3_tetra (ρ : K) (gc p0 p1 p2 p3 : V3 K) (hV : vol4 p0 p1 p2 p3 ≠ 0) :
+    letI := fieldNum K sq
+    let g : V3 K := ⟨(p0.x + p1.x + p2.x + p3.x) / 4, (p0.y + p1.y + p2.y + p3.y) / 4, (p0.z + p1.z + p2.z + p3.z) / 4⟩
+    let want := some (g, ρ * |vol4 p0 p1 p2 p3|, mscale (unitInertia4 g p0 p1 p2 p3) (ρ * |vol4 p0 p1 p2 p3|))
+    fromTrimesh3Raw ρ gc (tetraTris p0 p1 p2 p3) = want ∧ fromTrimesh3Raw ρ gc (flipTris (tetraTris p0 p1 p2 p3)) = want := by
+  intro g want
+  have main : @fromTrimesh3Raw K (fieldNum K sq) ρ gc (tetraTris p0 p1 p2 p3) = want := by
+    have h := from_trimesh3_closed sq ρ gc p0 (tetraTris p0 p1 p2 p3) (tetra_box_closed p0 p1 p2 p3 p0).1
+    simp only at h
+    have hvol : coneVol p0 (tetraTris p0 p1 p2 p3) = -vol4 p0 p1 p2 p3 := by
+      simp only [coneVol, tetraTris, List.map_cons, List.map_nil, List.sum_cons, List.sum_nil, vol4]; ring
+    have hF : coneFirst p0 (tetraTris p0 p1 p2 p3) = ⟨g.x * -vol4 p0 p1 p2 p3, g.y * -vol4 p0 p1 p2 p3, g.z * -vol4 p0 p1 p2 p3⟩ := by
+      simp only [coneFirst, tetraTris, List.map_cons, List.map_nil, vsum3, List.foldr_cons, List.foldr_nil, vadd3, vol4, g,
+        V3.mk.injEq]
+      refine ⟨?_, ?_, ?_⟩ <;> ring
+    have hn : -vol4 p0 p1 p2 p3 ≠ 0 := neg_ne_zero.2 hV
+    rw [h, hvol, hF]
+    simp only [hn, if_false, mul_div_assoc, div_self hn, mul_one]
+    have hI : coneInertia g p0 (tetraTris p0 p1 p2 p3) = mscale (unitInertia4 g p0 p1 p2 p3) (-vol4 p0 p1 p2 p3) := by
+      simp only [coneInertia, tetraTris, List.map_cons, List.map_nil, msum, List.foldr_cons, List.foldr_nil]
+      rw [unitInertia4_swap g p0 p1 p2 p3, vol4_swap p0 p1 p2 p3]
+      have z1 : vol4 p0 p0 p1 p2 = 0 := by simp only [vol4]; ring
+      have z2 : vol4 p0 p0 p3 p1 = 0 := by simp only [vol4]; ring
+      have z3 : vol4 p0 p0 p2 p3 = 0 := by simp only [vol4]; ring
+      rw [z1, z2, z3]
+      simp only [madd, mscale, mzero, mul_zero, zero_add, add_zero]
+    rw [hI]
+    simp only [want, Option.some.injEq, Prod.mk.injEq]
+    rcases lt_or_gt_of_ne hV with hlt | hgt
+    · have h' : ¬ (-vol4 p0 p1 p2 p3 < 0) := by linarith
+      simp only [h', if_false, abs_of_neg hlt, mscale]
+      refine ⟨trivial, by ring, ?_⟩
+      congr 1 <;> congr 1 <;> ring
+    · have h' : -vol4 p0 p1 p2 p3 < 0 := by linarith
+      simp only [h', if_true, abs_of_pos hgt, mscale]
+      refine ⟨trivial, by ring, ?_⟩
+      congr 1 <;> congr 1 <;> ring
+  exact ⟨main, (from_trimesh3_flip sq ρ gc _).trans main⟩
+
+
+private theorem box_vol (h : V3 K) : coneVol (⟨0, 0, 0⟩ : V3 K) (boxTris h) = 8 * h.x * h.y * h.z := by
+  simp only [coneVol, boxTris, List.map_cons, List.map_nil, List.sum_cons, List.sum_nil,
+    List.cons_append, List.nil_append, vol4]; ring
+
+private theorem box_first (h : V3 K) : coneFirst (⟨0, 0, 0⟩ : V3 K) (boxTris h) = ⟨0, 0, 0⟩ := by
+  simp only [coneFirst, boxTris, List.map_cons, List.map_nil, vsum3, List.foldr_cons, List.foldr_nil,
+    List.cons_append, List.nil_append, vadd3, vol4, V3.mk.injEq]
+  refine ⟨?_, ?_, ?_⟩ <;> ring
+
+private theorem box_inertia (h : V3 K) : coneInertia (⟨0, 0, 0⟩ : V3 K) ⟨0, 0, 0⟩ (boxTris h)
+    = ⟨⟨8 * h.x * h.y * h.z * (h.y * h.y + h.z * h.z) / 3, 0, 0⟩, ⟨0, 8 * h.x * h.y * h.z * (h.x * h.x + h.z * h.z) / 3, 0⟩,
+       ⟨0, 0, 8 * h.x * h.y * h.z * (h.x * h.x + h.y * h.y) / 3⟩⟩ := by
+  simp only [coneInertia, boxTris, List.map_cons, List.map_nil, msum, List.foldr_cons, List.foldr_nil,
+    List.cons_append, List.nil_append, madd, mscale, mzero, unitInertia4, cov4, vol4]
+  congr 1 <;> congr 1 <;> ring
+
+/-- **tessellation agreement, cuboid** (the reviewers' shape): `from_trimesh` on the 12-triangle box — wound outwards or
+INWARDS, whatever auxiliary apex — returns the centre of mass `0`, the mass `8ρ·hx·hy·hz` and the diagonal tensor
+`m/3·(hy²+hz², hx²+hz², hx²+hy²)` of `from_cuboid` (`cuboid3_spec`). -/
+theorem from_trimesh3_box (ρ : K) (gc h : V3 K) (hx : 0 < h.x) (hy : 0 < h.y) (hz : 0 < h.z) :
+    letI := fieldNum K sq
+    let m := 8 * ρ * h.x * h.y * h.z
+    let want := some ((⟨0, 0, 0⟩ : V3 K), m,
+      (⟨⟨m * (h.y * h.y + h.z * h.z) / 3, 0, 0⟩, ⟨0, m * (h.x * h.x + h.z * h.z) / 3, 0⟩, ⟨0, 0, m * (h.x * h.x + h.y * h.y) / 3⟩⟩ : M3 K))
+    fromTrimesh3Raw ρ gc (boxTris h) = want ∧ fromTrimesh3Raw ρ gc (flipTris (boxTris h)) = want := by
+  intro m want
+  have main : @fromTrimesh3Raw K (fieldNum K sq) ρ gc (boxTris h) = want := by
+    have hcl := from_trimesh3_closed sq ρ gc ⟨0, 0, 0⟩ (boxTris h) (tetra_box_closed gc gc gc gc h).2
+    simp only at hcl
+    have hpos : (0:K) < 8 * h.x * h.y * h.z := by positivity
+    have hne : (8 * h.x * h.y * h.z : K) ≠ 0 := ne_of_gt hpos
+    have hnl : ¬ ((8 * h.x * h.y * h.z : K) < 0) := not_lt.2 hpos.le
+    rw [hcl, box_vol, box_first]
+    simp only [hne, hnl, if_false, zero_div]
+    rw [box_inertia]
+    simp only [want, m, mscale, Option.some.injEq, Prod.mk.injEq]
+    refine ⟨trivial, by ring, ?_⟩
+    congr 1 <;> congr 1 <;> ring
+  exact ⟨main, (from_trimesh3_flip sq ρ gc _).trans main⟩
+
+/-- **why the sign must reach the tensor**: for the inward-wound box the accumulated (unsigned) sum
+`Σ_t vol(com,t)·J(com; com,t)` is the NEGATIVE of the solid's tensor — its diagonal is negative, so handing it to
+`with_inertia_matrix` without `sign` would clamp every principal inertia to zero while the mass stays `ρ|V|`. -/
+theorem from_trimesh3_inward_sum_negative (h : V3 K) (hx : 0 < h.x) (hy : 0 < h.y) (hz : 0 < h.z) :
+    let I := coneInertia (⟨0, 0, 0⟩ : V3 K) ⟨0, 0, 0⟩ (flipTris (boxTris h))
+    I.r0.x < 0 ∧ I.r1.y < 0 ∧ I.r2.z < 0 ∧ coneVol (⟨0, 0, 0⟩ : V3 K) (flipTris (boxTris h)) < 0 := by
+  intro I
+  have hI : I = mscale (coneInertia (⟨0, 0, 0⟩ : V3 K) ⟨0, 0, 0⟩ (boxTris h)) (-1) := coneInertia_flip _ _ _
+  rw [hI, box_inertia, coneVol_flip, box_vol]
+  simp only [mscale]
+  have p : (0:K) < 8 * h.x * h.y * h.z := by positivity
+  refine ⟨?_, ?_, ?_, by linarith⟩ <;> nlinarith [mul_pos p (mul_pos hx hx), mul_pos p (mul_pos hy hy), mul_pos p (mul_pos hz hz)]
+
+/-! ## non-vacuity -/
+
+/-- the hypothesis of `from_trimesh3_tetra` holds for the unit corner tetrahedron (volume `1/6`), and the hypotheses of
+`from_trimesh3_box` / `from_trimesh3_inward_sum_negative` for the `1×2×3` box of the library's own test -/
+example : vol4 (⟨0, 0, 0⟩ : V3 ℚ) ⟨1, 0, 0⟩ ⟨0, 1, 0⟩ ⟨0, 0, 1⟩ = 1 / 6 ∧ vol4 (⟨0, 0, 0⟩ : V3 ℚ) ⟨1, 0, 0⟩ ⟨0, 1, 0⟩ ⟨0, 0, 1⟩ ≠ 0 ∧
+    (0:ℚ) < (⟨1, 2, 3⟩ : V3 ℚ).x ∧ (0:ℚ) < (⟨1, 2, 3⟩ : V3 ℚ).y ∧ (0:ℚ) < (⟨1, 2, 3⟩ : V3 ℚ).z := by
+  norm_num [vol4]
+
+/-- the `1×2×3` box at density 1, wound INWARDS: mass 48 and principal inertias (208, 160, 80) as in the library's
+`cuboid_as_trimesh_mprops` test — a concrete instance of `from_trimesh3_box` (so the hypothesis of `from_trimesh3_mass`,
+`fromTrimesh3Raw … = some …`, is satisfiable too) -/
+example : @fromTrimesh3Raw ℚ (fieldNum ℚ id) 1 ⟨5, 7, 9⟩ (flipTris (boxTris ⟨1, 2, 3⟩))
+    = some (⟨0, 0, 0⟩, 48, ⟨⟨208, 0, 0⟩, ⟨0, 160, 0⟩, ⟨0, 0, 80⟩⟩) := by
+  have h := (from_trimesh3_box (K := ℚ) id 1 ⟨5, 7, 9⟩ ⟨1, 2, 3⟩ (by norm_num) (by norm_num) (by norm_num)).2
+  simp only at h
+  rw [h]
+  norm_num
+
+/-- the combinatorial hypothesis of `closed3_of_perm` is satisfiable: a triangle glued to its mirror image -/
+example (a b c : V3 ℚ) : (edges3 [(⟨a, b, c⟩ : Triangle3 ℚ), ⟨a, c, b⟩]).Perm ((edges3 [(⟨a, b, c⟩ : Triangle3 ℚ), ⟨a, c, b⟩]).map Prod.swap) :=
+  (List.reverse_perm _).symm
+
 section Integrals
 open intervalIntegral
 
